@@ -57,6 +57,7 @@ class Env:
         self.q_timeout_ms = 20000 if tier == "quick" else 120000
         self.max_replays = 3
         self._nreplays = 0
+        self.confirmed = {}  # obligation name -> replay path (shared across the paths of one config)
 
     # ------------------------------------------------------------------ inputs
     def real(self, name, shape=(), nn=False, pos=False, nonzero=False, lo=None, hi=None, integer=False):
@@ -87,7 +88,11 @@ class Env:
 
     def assume(self, cond):
         if self.symbolic:
-            sym.CTX.assume(cond)
+            if isinstance(cond, (list, tuple, np.ndarray)):
+                for c in _flat(cond):
+                    sym.CTX.assume(c)
+            else:
+                sym.CTX.assume(cond)
             return
         if isinstance(cond, (list, tuple, np.ndarray)):
             ok = all(bool(c) for c in _flat(cond))
@@ -286,6 +291,9 @@ class Env:
         c = sym.CTX
         info = {}
         extra = []
+        if name in self.confirmed:
+            # same obligation already confirmed by replay on another path of this configuration
+            return "violated", {"replay": self.confirmed[name], "duplicate_of_confirmed": True}
         if c.atoms:
             extra = c.atom_defs(2)
             r, m2 = self._decide(phi, groups, extra=extra, timeout_ms=min(self.q_timeout_ms, 30000))
@@ -319,6 +327,7 @@ class Env:
             ok, out = run_replay(self.pid, path)
             if ok:
                 info.update({"replay": path, "inputs": vals})
+                self.confirmed[name] = path
                 return "violated", info
             info.setdefault("spurious", []).append(out[-300:])
             try:
@@ -333,10 +342,22 @@ class Env:
         contradict each other would 'prove' everything)"""
         if not self.symbolic:
             return True
-        r, _ = self._decide(z3.BoolVal(False), groups, timeout_ms=10000)
-        rec = {"name": "__vacuity__", "path": list(sym.CTX.decisions), "verdict": {"sat": "proved", "unsat": "vacuous", "unknown": "vacuity-unknown"}[r], "seconds": 0.0}
+        c = sym.CTX
+        saved = c.assume_defined
+        c.assume_defined = False
+        try:
+            r0, _ = self._decide(z3.BoolVal(False), groups, timeout_ms=10000)
+        finally:
+            c.assume_defined = saved
+        verdict = {"sat": "proved", "unsat": "vacuous", "unknown": "vacuity-unknown"}[r0]
+        if r0 != "unsat" and saved and c.dens:
+            r1, _ = self._decide(z3.BoolVal(False), groups, timeout_ms=10000)
+            if r1 == "unsat":
+                # the code divides by zero on this whole path: outside the claim, its obligations are void
+                verdict = "undefined-path"
+        rec = {"name": "__vacuity__", "path": list(c.decisions), "verdict": verdict, "seconds": 0.0}
         self.results.append(rec)
-        return r == "sat"
+        return verdict == "proved"
 
 
 # ---------------------------------------------------------------------- replay files
